@@ -81,7 +81,13 @@ where
     F: Float,
 {
     let this_in = !event.is_in_out();
-    let that_in = !event.is_other_in_out();
+    // For the carrier of a pair of coincident edges the other operand changes across the edge
+    // as well: in the same direction (SameTransition) or in the opposite one.
+    let that_in = match event.get_edge_type() {
+        EdgeType::SameTransition => this_in,
+        EdgeType::DifferentTransition => !this_in,
+        _ => !event.is_other_in_out(),
+    };
     let is_in = match operation {
         Operation::Intersection => this_in && that_in,
         Operation::Union => this_in || that_in,
